@@ -260,6 +260,43 @@ pub fn run(thorough: bool, seed: u64, _replay: Option<String>) -> Report {
             rep.count_n("history:fresh-process-unanswered", unanswered);
         }
     }
+    // (1c) folded siblings: pairs of texts that become equal once letters are case-folded, compatibility characters are
+    // replaced by their ordinary forms, or everything but the letters is dropped – what any folded or reduced memo key
+    // would confuse – asked one after the other in both orders, each compared with its answer on cold caches
+    {
+        let swedish = "Provet värmdes långsamt och avståndet mellan skikten mättes till 3,5 \u{212b} respektive 4,1 \u{212b} efter två timmar; nästa mätning gav 2,9 \u{212b}, sedan 3,3 \u{212b}, 3,8 \u{212b}, 4,0 \u{212b}, 2,7 \u{212b} och 3,1 \u{212b} i följd. ";
+        let ohm = "The resistor of 10 k\u{2126} was cooled to 77 \u{212a} and then to 4 \u{212a}; a second one of 47 k\u{2126} stayed at 300 \u{212a}, the third of 1 M\u{2126} at 20 \u{212a}, as noted in the log of the evening. ";
+        let mut pairs: Vec<(String, String)> = vec![
+            (swedish.repeat(2), swedish.repeat(2).replace('\u{212b}', "\u{c5}")),
+            (ohm.repeat(2), ohm.repeat(2).replace('\u{2126}', "\u{3a9}").replace('\u{212a}', "K")),
+        ];
+        for k in [2usize, 3, 5, 7] {
+            let t: String = stretch(&mut rng, TEXTS[k].1, 500);
+            pairs.push((t.clone(), t.to_uppercase()));
+            pairs.push((t.clone(), t.to_lowercase()));
+            pairs.push((t.clone(), t.chars().filter(|c| c.is_alphabetic() || *c == ' ').collect()));
+        }
+        let sett = Sett::default();
+        for (a, b) in &pairs {
+            if a == b {
+                continue;
+            }
+            for (first, second) in [(a, b), (b, a)] {
+                vh::flush_caches();
+                let cold = real_detect(second.as_bytes(), &sett);
+                vh::flush_caches();
+                let _ = real_detect(first.as_bytes(), &sett);
+                let warm = real_detect(second.as_bytes(), &sett);
+                rep.evaluations += 1;
+                rep.oracle_checked += 1;
+                rep.count("history:folded-sibling");
+                if warm != cold {
+                    rep.fail("oracle", "C11:warm-answer-differs-from-cold", &format!("right after its folded sibling: {} || cold {}", warm.show().chars().take(300).collect::<String>(), cold.show().chars().take(300).collect::<String>()), second.as_bytes(), Some(&sett), "folded-sibling");
+                }
+            }
+        }
+        vh::flush_caches();
+    }
     // (2) drive the bounded caches past their capacity (2048), then ask again
     let n_fill = if thorough { 1500 } else { 520 };
     for i in 0..n_fill {
